@@ -171,6 +171,22 @@ fn run_history(m: &mut ReManager, prog: &Program, noise_n: usize, rng: &mut Rng,
             let _ = m.iter_derivatives(t).take(2).count();
         });
     }
+    // calls that are documented to panic or to return an error, made on this manager and survived by the caller
+    // (catch_unwind / ignored Err): the manager must be none the worse for it when the steps are re-issued below
+    {
+        use aws_smt_strings::character_sets::{CharSet, ClassId};
+        for (k, &t) in terms.iter().enumerate().filter(|(k, _)| k % 3 == 1).take(6) {
+            let _ = k;
+            rep.count("failing_calls_survived_before_reissue", 7);
+            let _ = guard(|| m.range(5, 3));
+            let _ = guard(|| m.char(0x30000));
+            let _ = guard(|| m.class_derivative(t, ClassId::Interval(usize::MAX)));
+            let _ = guard(|| m.class_derivative_unchecked(t, ClassId::Interval(9999)));
+            let _ = guard(|| m.set_derivative(t, &CharSet::range(0, MAXC_)));
+            let _ = guard(|| m.set_derivative_unchecked(t, &CharSet::range(0, MAXC_)));
+            let _ = guard(|| m.start_class(t, ClassId::Interval(9999)));
+        }
+    }
     for k in 0..terms.len() {
         rep.inc("constructor_calls_reissued");
         match guard(|| prog.ops[k].apply_mgr(m, &terms)) {
